@@ -2,6 +2,7 @@
   `sim_step`: one fragment op, same observation, relation re-established.
 -/
 import TvFs.Proofs.Sim
+import TvFs.Proofs.Listing
 
 namespace TV.Fs
 
@@ -48,6 +49,20 @@ theorem sWrite_handles (l : Live) (id off : Nat) (d : Bytes) : (sWrite l id off 
 theorem ofExcept_fst_fs (st : St) (r : Except Err Fs) :
     (ofExcept st r).1 = match r with | .ok fs => { st with fs := fs } | .error _ => st := by
   cases r <;> rfl
+
+theorem view_eq {fs : Fs} {l : Live} (h : FsRel fs l) (p : Path) : viewOf fs p = sView l p := by
+  unfold viewOf sView
+  cases hent : entAt l p with
+  | none =>
+    simp only [h.file, h.dir, isFileAt_of_none hent, isDirAt_of_none hent, Bool.false_eq_true, if_false]
+  | some en =>
+    cases en with
+    | file id =>
+      simp only [h.file, isFileAt_of_ent hent, if_true, fileLen_of h hent, content_of h hent]
+    | dir id =>
+      have h1 : isFileAt l p = false := by simp [isFileAt, hent]
+      have h2 : isDirAt l p = true := by simp [isDirAt, hent]
+      simp only [h.file, h.dir, h1, h2, Bool.false_eq_true, if_false, if_true, listing_eq h p]
 
 theorem sim_step {st : St} {l : Live} (hR : R st l) (op : Op) (hf : fragOk l op = true) :
     (step {} st op {}).2 = (lStep l op).2 ∧ R (step {} st op {}).1 (lStep l op).1 := by
@@ -286,8 +301,19 @@ theorem sim_step {st : St} {l : Live} (hR : R st l) (op : Op) (hf : fragOk l op 
   | rmdirAll p => simp [fragOk] at hf
   | unlink p => simp [fragOk] at hf
   | rename p q => simp [fragOk] at hf
-  | readDir p => simp [fragOk] at hf
-  | dump pool => simp [fragOk] at hf
+  | readDir p =>
+    simp only [step, lStep]
+    rw [hR.fs.dir, listing_eq hR.fs p]
+    split
+    · exact ⟨rfl, hR⟩
+    · exact ⟨rfl, hR⟩
+  | dump pool =>
+    simp only [step, lStep]
+    refine ⟨?_, hR⟩
+    congr 1
+    apply List.map_congr_left
+    intro p _
+    rw [view_eq hR.fs p]
   | crash => simp [fragOk] at hf
 
 end TV.Fs
